@@ -26,6 +26,7 @@ from . import common
 
 EXTRA_OPS = {"write", "read", "write_coll", "read_coll", "twin"}
 EXPECTED_PROBES = ["write_overwrites_longer_file", "write_failed_in_last_flush", "read_fault_fired",
+                   "short_reads_of_a_file_with_multibyte_characters",
                    "write_fault_fired", "overwrite_other_format", "single_row_or_column_matrix"]
 FORMATS = ["hif", "json", "edgelist", "bipartite", "incidence"]
 DELIMS = [" ", ",", "\t", ";", "|"]
@@ -49,6 +50,7 @@ def configure(cfg, r, tier):
         t["freeze"] = 0.1
         # explicit IDs of another type than the automatic (int) ones take a network out of the
         # stated domain of the text formats; keep them rare
+    cfg["unicode_labels"] = r.random() < 0.5
     if cfg["profile"] == "strs":
         # explicit (string) edge IDs next to automatic (int) ones take a network out of the
         # stated domain of the string-casting formats: string-labelled nodes, automatic edge IDs
@@ -120,7 +122,7 @@ def admissible(fmt, m):
     if fmt == "incidence":
         return True
     import re
-    if any(not re.fullmatch(r"-?[A-Za-z0-9_]+", str(x)) for x in nodes + edges):
+    if any(not re.fullmatch(r"-?\w+", str(x)) for x in nodes + edges):
         return False  # a label containing a delimiter / comment / whitespace character
     return True
 
@@ -323,8 +325,13 @@ def do_write(sim, rec):
         expect, exp = pi(fmt, m, read_params)
         if fmt == "hif":
             expect.kind_name = act.kind
+        try:
+            with open(path, "rb") as fh:
+                multibyte = any(b > 127 for b in fh.read())
+        except OSError:
+            multibyte = False
         sim.store[rec["path"]] = {"fmt": fmt, "ack": True, "expect": expect, "exp": exp,
-                                  "read_params": read_params, "src_kind": act.kind}
+                                  "read_params": read_params, "src_kind": act.kind, "multibyte": multibyte}
         if old_size is not None and new_size is not None and new_size < old_size:
             w.probes["write_overwrites_longer_file"] += 1
         if old and old.get("fmt") != fmt:
@@ -370,6 +377,8 @@ def do_read(sim, rec):
         w.stats["fault_fired:" + k] += c
         w.probes["read_fault_fired"] += 1
     w.stats["short_reads"] += plan.short_reads
+    if plan.short_reads and st is not None and st.get("ack") and st.get("multibyte"):
+        w.probes["short_reads_of_a_file_with_multibyte_characters"] += 1
     w.logev("read", rec["uid"], fmt, rec["path"], "ok" if exc is None else type(exc).__name__, sorted(plan.fired))
     fake = dict(rec, op="read_" + fmt, fault={"kind": fk} if fk else None)
     if plan.fired:
